@@ -72,7 +72,8 @@ func (h *Handler) handleDiscover(p packet.DHCP4, options packet.DHCP4Options) (d
 	// Android sends two discover packets in quick succession
 	// If another discover within the allowed time, return the previous offer
 	case StateDiscover:
-		if !bytes.Equal(lease.XID, p.XId()) { // new discover packet
+		if !bytes.Equal(lease.XID, p.XId()) || // new discover packet
+			h.allocatedToOther(lease, lease.IPOffer) { // the address on offer was acknowledged to another client meanwhile
 			lease.IPOffer = netip.Addr{}
 		}
 
